@@ -73,6 +73,7 @@ type c08Case struct {
 	want404     bool
 	label       string // coarse class for the outcome statistics
 	handler     string // which handler to replay on for the panic site
+	steps       int    // api cases: after the call, this many step calls (each followed by quiescence) so that the session goroutine does its work
 	setup       string // api cases: "" = no session, "live" = a running step-mode session with id 1, "ended" = that session deleted
 }
 
@@ -339,6 +340,20 @@ func TestVerifC08(t *testing.T) {
 			cases = append(cases, c08Case{method: "POST", url: "/api/cmaf-ingests", body: []byte(full), label: "api", handler: "router"})
 		}
 	}
+	// a session for every kind of configuration the livesim2 URL can carry: what the session goroutine does with it
+	// (the request log of C16 judges what is sent; here only: no crash, no hang)
+	for _, cfgp := range []string{"", "segtimeline_1", "segtimelinenr_1", "periods_60", "statuscode_[{cycle:30,rsq:0,code:404}]", "statuscode_[{cycle:4,rsq:1,code:503,rep:V300}]",
+		"traffic_u20,d10", "ato_1/chunkdur_1000", "ato_1/chunkdur_1000/timesubsstpp_en", "timesubswvtt_en,sv", "scte35_2", "eccp_cenc", "eccp_cbcs", "patch_60/segtimeline_1",
+		"annexI_a=1", "stop_104", "stoprel_-10", "startrel_-20", "start_90", "snr_7", "tsbd_4", "timeoffset_2.5", "ltgt_1000", "mup_1", "utc_direct-ntp"} {
+		for _, dur := range []string{"", `,"duration":4`} {
+			u := "/livesim2/testpic_2s/Manifest.mpd"
+			if cfgp != "" {
+				u = "/livesim2/" + cfgp + "/testpic_2s/Manifest.mpd"
+			}
+			body := fmt.Sprintf(`{"livesimURL":%q,"destRoot":"http://receiver.test/up","destName":"c08cfg","testNowMS":100000%s}`, u, dur)
+			cases = append(cases, c08Case{method: "POST", url: "/api/cmaf-ingests", body: []byte(body), label: "api", handler: "router", steps: 3})
+		}
+	}
 	for _, id := range []string{"0", "1", "-1", "abc", "99999999999999999999", "1.5", ""} {
 		for _, suffix := range []string{"", "/step"} {
 			for _, m := range []string{"GET", "DELETE", "POST"} {
@@ -398,6 +413,12 @@ func c08Run(rep *vh.Report, srv *Server, c c08Case) {
 		resp = vDoCT(srv, c.method, c.url, c.body)
 		if c.label == "api" {
 			s.Settle()
+			for i := 0; i < c.steps && resp.Code/100 == 2; i++ {
+				// from a daemon client: a step that never returns must not hang the case
+				vrt.Go(func() { vDoCT(srv, "GET", "/api/cmaf-ingests/1/step", nil) })
+				s.Sleep(12_000 * 1_000_000)
+				s.Settle()
+			}
 		}
 	})
 	rep.AddStates(1)
